@@ -44,6 +44,10 @@ def build(run: Run):
     run.verify("cli.main", extra_post=cli_faces.inject_paths)
     eng.back_edge_hook = None
     run.verify("fickle.Interpreter.new_variable", "fickle.Interpreter.next_variable_id", "fickle.Interpreter.__init__")
+    # what the CLI iterates over: the stack as StackedPickle.load builds it from a file, bytes or a non-seekable stdin (one normalised stream,
+    # one Pickled per member, in order: the partition clause of C06, needed here for "exactly one pickle is edited, the others are copied")
+    run.verify("fickle.Pickled.make_stream#bytes", "fickle.Pickled.make_stream#stream", "fickle.StackedPickle.load", "fickle.StackedPickle.__init__",
+               "fickle.StackedPickle.__len__", "fickle.StackedPickle.__getitem__")
     run.assumptions += [
         "argparse is modelled: parse_args returns a namespace whose attributes are the destinations declared by the add_argument calls of the "
         "working tree at their declared types, or exits; options of the mutually exclusive group are not given together",
